@@ -6,7 +6,7 @@ import vlib
 from vlib import cz, cn, clist, cbool
 
 # ------------------------------------------------------------------ stores
-def make_store(rng, nested=True):
+def make_store(rng, nested=True, attrdict=False):
     """returns (spec, leaves, containers).  spec: [[label, node]...]"""
     def leafs(names):
         return [[k, rng.randint(-9, 9)] for k in names]
@@ -26,7 +26,7 @@ def make_store(rng, nested=True):
         leaves += [["c", ["i", "l"], ["i", i]] for i in range(3)]
         conts += [["c", ["i", "n"], [step(kn), "p"]], ["c", ["i", "l"]]]
     spec = [["c", {"kind": "dict", "items": c_items}],
-            ["g", {"kind": "obj", "items": leafs("qr")}],
+            ["g", {"kind": "attrdict" if attrdict else "obj", "items": leafs("qr")}],
             ["f", {"kind": "dict", "items": [["sum", "FunSum"]]}]]
     leaves += [["g", ["a", "q"]], ["g", ["a", "r"]]]
     return spec, leaves, conts
@@ -49,9 +49,9 @@ def gen_expr(rng, pool, conts, depth=0):
     return ["bin", rng.choice("+-*"), gen_expr(rng, pool, conts, depth + 1), gen_expr(rng, pool, conts, depth + 1)]
 
 
-def gen_history(rng, profile="mixed", nops=None, nofun=False):
+def gen_history(rng, profile="mixed", nops=None, nofun=False, attrdict=False):
     nested = profile not in ("flat", "assign_flat")
-    spec, leaves, conts = make_store(rng, nested)
+    spec, leaves, conts = make_store(rng, nested, attrdict)
     rank = list(leaves)
     rng.shuffle(rank)
     pos = {json.dumps(p): i for i, p in enumerate(rank)}
@@ -350,7 +350,7 @@ def leaves_of(case):
 
     def walk(spec, pre, kind_of_parent):
         for k, v in spec["items"]:
-            step = ["i", k] if spec["kind"] in ("dict", "list") else ["a", k]
+            step = ["i", k] if spec["kind"] in ("dict", "list") else ["a", k]     # obj / attrdict: attribute steps
             if isinstance(v, dict):
                 walk(v, pre + [step], v["kind"])
             elif v != "FunSum":
